@@ -82,7 +82,7 @@ func (c *appendCombineChecker) matchAppend(stmt ast.Stmt, slice ast.Expr) *ast.C
 	call, ok := assign.Rhs[0].(*ast.CallExpr)
 	{
 		cond := ok &&
-			qualifiedName(call.Fun) == "append" &&
+			isBuiltinFunc(c.ctx.TypesInfo, call.Fun, "append") &&
 			call.Ellipsis == token.NoPos &&
 			len(call.Args) != 0 &&
 			astequal.Expr(assign.Lhs[0], call.Args[0])
